@@ -124,13 +124,13 @@ public:
     void reschedule(const char* op) {
         if (++steps > opt.max_steps) pbt::abandon_case("scheduler step bound exceeded");
         if (opt.spurious_wakeups) maybe_spurious();
-        int en[64];
+        static thread_local int en[2048];
         unsigned n = 0;
         bool me_enabled = false, any_fresh = false;
         for (auto& t : threads)
             if (t->st == St::Runnable && !t->yielded) any_fresh = true;
         for (auto& t : threads)
-            if (t->st == St::Runnable && (!any_fresh || !t->yielded) && n < 64) {
+            if (t->st == St::Runnable && (!any_fresh || !t->yielded) && n < 2048) {
                 en[n++] = t->id;
                 if (t->id == current) me_enabled = true;
             }
